@@ -391,6 +391,9 @@ def applyRes (cfg : Cfg) (pol : Policy) (step : Nat) (tickEv : Ev) (didComplete 
         out := .ty ev.ty }
   | .result none => { acc with out := .noneType }
   | .failed exc failedAt =>
+    -- already scheduled to run again with a refreshed snapshot (an earlier `AddCollectedEvent` of this list met a
+    -- stale one): the failure of the stale execution is skipped (`if not step_no_longer_in_progress: continue`)
+    if acc.stillInProgress then acc else
     let failures := acc.exec.attempts + 1
     let elapsed := failedAt - acc.exec.firstAt
     match retryDecision cfg pol step elapsed failures exc with
